@@ -202,6 +202,15 @@ Example C07_ex0_refused :
   show (step ex0 (OPaint 5 1 [1;3] 1 true)) = (0, Some [[1;1;0;0]; [2;5;3;5]; [0;4;4;0]], [1;2;3;4;5]).
 Proof. vm_compute. repeat split; reflexivity. Qed.
 
+(* W_seg cannot be dropped from C07_paint_undo: with a stray label 5 (no node) in frame 2, painting 5 creates
+   node 5 whose mask includes the stray pixel; undo deletes the node together with all its pixels *)
+Example C07_undo_needs_W_seg :
+  let exS := upd_seg ex0 (Some [[1;1;0;0]; [2;2;3;0]; [0;4;4;5]]) in
+  let s1 := fst (step exS (OPaint 5 2 [0] 9 false)) in
+  show (step exS (OPaint 5 2 [0] 9 false)) = (0, Some [[1;1;0;0]; [2;2;3;0]; [5;4;4;5]], [1;2;3;4;5]) /\
+  show (step s1 OUndo) = (1, Some [[1;1;0;0]; [2;2;3;0]; [0;4;4;0]], [1;2;3;4]).
+Proof. vm_compute. split; reflexivity. Qed.
+
 (* the hypotheses of the stand-alone basic-level theorems are satisfiable on ex0 *)
 Example C07_ex0_basic :
   (exists b s, do_add_node ex0 5 [(KTime, VZ 2); (KTrack, VZ 9)] (Some (2, [0;3])) = Ok b s /\
